@@ -191,3 +191,34 @@ def c_stop(ctx, case):
     if kstar >= 1:
         ctx.close(float(m.average_min_distance), D[kstar], "reported criterion at the stop iteration",
                   rtol=1e-9, atol=64 * np.finfo(float).eps * sc * sc)
+
+
+def g_refit(draw):
+    a = gen.kmeans_data(draw, max_rows=24, min_rows=5)
+    b = gen.kmeans_data(draw, max_rows=24, min_rows=5, maxF=1)
+    r = gen.rng(draw)
+    F = a["X"].shape[1]
+    XB = a["scale"] * r.normal(2.0, 2.0, (gen.integer(draw, max(a["k"], 4), 20), F))
+    c = {"X": a["X"], "XB": XB, "k": a["k"], "scale": a["scale"], "kind": a["kind"]}
+    c["init"] = {"method": gen.choice(draw, ["random", "k-means||"]), "init": None, "seed": gen.integer(draw, 0, 999)}
+    c["thr"] = gen.choice(draw, [None, 1e-2, 1e-1])
+    c["cap"] = gen.choice(draw, [1, 2, 3, 5])
+    c["dask_first"] = gen.boolean(draw)
+    return c
+
+
+@REG.obligation("refit_equals_fresh_machine", g_refit, quick=120, thorough=2500, shard_size=30)
+def c_refit(ctx, case):
+    """A machine that was already trained and is trained again on other data gives what a fresh machine gives
+    (same centroids, same criterion, hence the same number of iterations)."""
+    m = km_machine(case, case["cap"], case["thr"])
+    first = sut.dask_rows(case["X"], [case["X"].shape[0]]) if case["dask_first"] else case["X"]
+    m.fit(first)
+    m.predict(case["X"])
+    m.fit(case["XB"])
+    fresh = km_machine(case, case["cap"], case["thr"]).fit(case["XB"])
+    ctx.note(case["k"] >= 2, "init:" + case["init"]["method"])
+    if not np.isfinite(fresh.centroids_).all():
+        ctx.discard("empty cluster")
+    ctx.close(m.centroids_, fresh.centroids_, "centroids after training again vs fresh machine", rtol=0, atol=0)
+    ctx.close(m.average_min_distance, fresh.average_min_distance, "criterion after training again vs fresh machine", rtol=0, atol=0)
